@@ -8,6 +8,8 @@ from vt import common
 
 STATE_STEPS = ["check", "get", "set", "unset", "push", "pop"]
 VM_STEPS = {"boot": "boot", "shutdown": "shutdown"}
+# object-level steps built on a state step with fixed parameters: step -> (state step it reuses, state it addresses)
+ROOT_STEPS = {"collect": ("get", "root"), "create": ("set", "root"), "clean": ("unset", "root")}
 DEFAULT_VARIANT = {"vm1": "CentOS", "vm2": "Win10", "vm3": "Ubuntu"}
 # worker restrictions as written in nets.cfg (transcribed, not read through the code under test)
 WORKER_RESTR = {"net3": {"vm1": ("only", ["CentOS", "Fedora"]), "vm2": ("no", ["WinXP", "Win8"])},
@@ -30,11 +32,15 @@ def analyse(case):
     args = [f"setup={','.join(chain)}", f"vms={','.join(vms)}", f"nets={','.join(nets)}"]
     for op in ("check", "get", "set", "unset", "push", "pop"):
         args.append(f"{op}_state_images=st_{op}")
-    args.append("get_mode=ri")
+    user = case.get("user") or {}
+    if "get_mode" not in user:
+        args.append("get_mode=ri")
+    args += [f"{k}={v}" for k, v in user.items()]
     everything = [(f"image1_{v}", f"st_{op}") for v in ("vm1", "vm2", "vm3") for op in ("get", "pop", "check", "unset")]
     # the manual tests name no source location: the states they start from are in each worker's own pool
     scn = engine.Scenario("manu", "", " ".join(nets), shared=everything, own={n: everything for n in nets}, D=(1.0,), O=("PASS", "FAIL"))
     scn.watch = ["vm_action", "vms", "get_state_images", "set_state_images", "unset_state_images", "check_state_images", "push_state_images", "pop_state_images", "main_vm"]
+    scn.watch += [f"{op}_mode@vm" for op in STATE_STEPS]
 
     def fn():
         cfg = {"i2n.manu.params": args}
@@ -50,6 +56,7 @@ def analyse(case):
         if e["k"] == "start":
             runs.append({"w": e["w"], "uid": e["uid"], "prefix": e["prefix"], "vm_action": e.get("p_vm_action"), "vms": e.get("p_vms"), "idx": idx,
                          "states": {k: e.get("p_" + k) for k in scn.watch if k.endswith("_state_images")}, "seq": e["seq"],
+                         "modes": {k[:-3]: e.get("p_" + k) for k in scn.watch if k.endswith("@vm")},
                          "status": ends.get(e["seq"], {}).get("status"), "end_idx": next((j for j, x in enumerate(r.trace) if x["k"] == "end" and x["seq"] == e["seq"]), None)})
     return {"case": case, "exc": r.exc, "rc": r.rc, "runs": runs, "kinds": [p[0] for p in r.points], "choices": r.choices}
 
@@ -63,8 +70,9 @@ def run(tier: str, seed: int) -> int:
     rep.rule = ("cases = chains of length <= L over the built-in steps x vm selections x worker sets (incl. restricted workers first/middle/last); for every case the default run and every "
                 "placement of one failing execution; distinct = distinct (case, failing position)")
     q = tier == "quick"
-    steps = STATE_STEPS + list(VM_STEPS) + ["noop"]
+    steps = STATE_STEPS + list(VM_STEPS) + ["noop"] + list(ROOT_STEPS)
     chains = [[s] for s in steps]
+    chains += [["create", "set"], ["clean", "create"], ["collect", "get"], ["unset", "clean"]]
     if q:
         chains += [["check", "get"], ["boot", "shutdown"], ["noop", "set"], ["get", "boot", "set"], ["unset", "pop"], ["push", "pop"], ["check", "check"], ["get", "boot", "get"]]
     else:
@@ -81,6 +89,13 @@ def run(tier: str, seed: int) -> int:
                 if q and len(ch) > 1 and nets == ["net1", "net3"] and vms == ["vm1"]:
                     continue
                 cases.append({"chain": ch, "vms": vms, "nets": nets})
+    # the step's parameters: a policy given by the user for all vms or for one vm must be the one the step's test applies to that vm
+    USER_MODES = {"check": ["rf", "ff"], "get": ["ia", "ra"], "set": ["af", "rf"], "unset": ["fa", "ra"], "push": ["af", "rf"], "pop": ["ra", "fa"]}
+    for op, modes in USER_MODES.items():
+        for mode in (modes[:1] if q else modes):
+            for user in ({f"{op}_mode": mode}, {f"{op}_mode_vm2": mode}, {f"{op}_mode_vm1": mode, f"{op}_mode": modes[-1]}):
+                for ch in ([op], ["check", op] if op != "check" else ["check", "get"]):
+                    cases.append({"chain": ch, "vms": ["vm1", "vm2"], "nets": ["net1", "net2"], "user": user})
     results = list(common.pmap(analyse, cases))
     # one failing execution at every position (OUT choice points)
     extra = []
@@ -94,7 +109,7 @@ def run(tier: str, seed: int) -> int:
     results += list(common.pmap(analyse, extra))
     for r in results:
         c = r["case"]
-        cid = f"setup={','.join(c['chain'])} vms={','.join(c['vms'])} nets={','.join(c['nets'])}" + (f" failing@{len(c['prefix'])}" if c.get("prefix") else "")
+        cid = f"setup={','.join(c['chain'])} vms={','.join(c['vms'])} nets={','.join(c['nets'])}" + (f" failing@{len(c['prefix'])}" if c.get("prefix") else "") + (f" user={c['user']}" if c.get("user") else "")
         rep.evaluations += 1
         rep.transitions += len(r["kinds"]) + 1
         rep.traces_validated += 1
@@ -112,7 +127,7 @@ def run(tier: str, seed: int) -> int:
                     rep.violation(f"[{cid}] step {i} (noop) executed {len(mine)} tests", inp, {"kind": "noop-ran"})
                 continue
             expected = {}
-            if step in STATE_STEPS:
+            if step in STATE_STEPS or step in ROOT_STEPS:
                 for w in c["nets"]:
                     for vm in c["vms"]:
                         if compatible(w, vm):
@@ -125,14 +140,26 @@ def run(tier: str, seed: int) -> int:
             for x in mine:
                 key = (x["w"], " ".join(sorted((x["vms"] or "").split())))
                 got[key] = got.get(key, 0) + 1
-                want_action = step if step in STATE_STEPS else VM_STEPS[step]
+                want_action = step if step in STATE_STEPS else (ROOT_STEPS[step][0] if step in ROOT_STEPS else VM_STEPS[step])
                 if x["vm_action"] != want_action:
                     rep.violation(f"[{cid}] step {i} ({step}) executed a test with vm_action={x['vm_action']!r}", inp, {"kind": "wrong-action", "step": step})
+                if step in ROOT_STEPS and x["states"].get(f"{ROOT_STEPS[step][0]}_state_images") != ROOT_STEPS[step][1]:
+                    rep.violation(f"[{cid}] step {i} ({step}) executed without addressing the {ROOT_STEPS[step][1]} state ({x['states']})", inp, {"kind": "missing-param", "step": step})
                 if step in STATE_STEPS and x["states"].get(f"{step}_state_images") != f"st_{step}":
                     rep.violation(f"[{cid}] step {i} ({step}) executed without its state parameter ({x['states']})", inp, {"kind": "missing-param", "step": step})
                 for vm in (x["vms"] or "").split():
                     if vm not in c["vms"]:
                         rep.violation(f"[{cid}] step {i} ({step}) executed for unselected {vm}", inp, {"kind": "unselected-vm"})
+                for k_, v_ in (c.get("user") or {}).items():
+                    op_, _, vm_ = k_.partition("_mode")
+                    if op_ != step:
+                        continue
+                    for vm in (x["vms"] or "").split():
+                        want = (c["user"].get(f"{op_}_mode_{vm}") or c["user"].get(f"{op_}_mode")) if (vm_ in ("", "_" + vm)) else None
+                        seen_mode = (x["modes"].get(f"{op_}_mode") or {}).get(vm)
+                        if want is not None and seen_mode != want:
+                            rep.violation(f"[{cid}] step {i} ({step}) acts on {vm} with {op_}_mode={seen_mode!r} although the user gave {k_}={v_}", inp,
+                                          {"kind": "user-param-ignored", "step": step, "per_vm": bool(vm_)})
                 if x["idx"] < last_end:
                     rep.violation(f"[{cid}] step {i} ({step}) started before the previous step finished", inp, {"kind": "order"})
                 if x["status"] not in ("PASS", None):
@@ -142,7 +169,7 @@ def run(tier: str, seed: int) -> int:
                 extra_k = sorted(k for k in got if k not in expected)
                 dup = sorted(k for k, v in got.items() if v > 1)
                 rep.violation(f"[{cid}] step {i} ({step}): executed {sorted(got.items())}, expected once each for {sorted(expected)} (missing {missing}, extra {extra_k}, repeated {dup})",
-                              inp, {"kind": "multiset", "missing": bool(missing), "extra": bool(extra_k), "repeated": bool(dup), "group": step in STATE_STEPS})
+                              inp, {"kind": "multiset", "missing": bool(missing), "extra": bool(extra_k), "repeated": bool(dup), "group": step in STATE_STEPS or step in ROOT_STEPS})
             ends_ = [x["end_idx"] for x in mine if x["end_idx"] is not None]
             if ends_:
                 last_end = max(last_end, max(ends_))
